@@ -130,6 +130,30 @@ var c14Templates = []c14Template{
 	}},
 }
 
+// c14AheadOfLimit places a fault just behind what a consumer that stops at the limit has
+// taken from one stream (anything from one peeked record to limit+1), or a read-ahead
+// buffer's length further (some power of two, give or take one).
+func c14AheadOfLimit(fr *Rng, limit, n int) int {
+	taken := limit
+	if fr.Bool(0.5) {
+		taken = fr.Intn(limit + 2)
+	}
+	ahead := 0
+	if fr.Bool(0.7) {
+		ahead = (8 << fr.Intn(4)) + fr.Intn(4) - 1 // 7..10, 15..18, 31..34, 63..66
+	} else if fr.Bool(0.3) {
+		ahead = 1
+	}
+	fi := taken + ahead
+	if fi >= n {
+		fi = limit
+	}
+	if fi >= n {
+		fi = n - 1
+	}
+	return fi
+}
+
 func c14TemplateByName(name string) *c14Template {
 	for i := range c14Templates {
 		if c14Templates[i].name == name {
@@ -198,7 +222,7 @@ func faultOffset(r *Rng, l Layout, fi int, class string) int {
 
 func (propC14) Gen(r *Rng, run uint64, tier string) *Plan {
 	p := &Plan{Harness: "engine", Tags: map[string]string{}, Config: "faults"}
-	sweep := r.Bool(0.3)
+	sweep := r.Bool(0.18)
 	step := []int64{5, 10, 20}[r.Intn(3)] * sec
 	nsteps := int64(4 + r.Intn(5))
 	rng := []int64{10, 20, 60}[r.Intn(3)] * sec
@@ -222,14 +246,14 @@ func (propC14) Gen(r *Rng, run uint64, tier string) *Plan {
 		switch x := r.Intn(100); {
 		case x < 6:
 			spec.NMin, spec.NMax, spec.RecMax = 7, 24, 5
-		case x < 7:
+		case x < 8:
 			spec.NMin, spec.NMax, spec.RecMax = 30, 70, 2
-			if r.Bool(0.35) {
+			if r.Bool(0.4) {
 				spec.NMin, spec.NMax = 129, 160
 			}
-		case x < 14:
+		case x < 18:
 			spec.RecMin, spec.RecMax = 20, 90
-		case x < 15:
+		case x < 19:
 			spec.NoHuge, spec.Msg, spec.RecMax = false, "rich", 5
 		}
 	}
@@ -331,7 +355,12 @@ func (propC14) Gen(r *Rng, run uint64, tier string) *Plan {
 	fr := r.Sub("faults")
 	for k := 0; k < nf; k++ {
 		var c *Container
-		if len(opened) > 0 && !fr.Bool(0.05) {
+		if len(opened) > 24 && fr.Bool(0.5) {
+			// large selections: the last few requests (whatever is done in waves, batches or
+			// pools treats the tail differently from the head)
+			c = opened[len(opened)-1-fr.Intn(12)]
+			p.Tags["fault_in_tail"] = "1"
+		} else if len(opened) > 0 && !fr.Bool(0.05) {
 			c = opened[fr.Intn(len(opened))]
 		} else {
 			c = &p.World.Containers[fr.Intn(len(p.World.Containers))]
@@ -357,10 +386,7 @@ func (propC14) Gen(r *Rng, run uint64, tier string) *Plan {
 			if p.Params.Limit > 0 && fr.Bool(0.4) && p.Params.Limit < len(l.Ends) {
 				// record L+1 under limit L, or a buffer's length further (a prefetching reader
 				// runs ahead of the consumer by some power of two)
-				fi = p.Params.Limit + []int{0, 0, 0, 1, 7, 8, 15, 16, 17, 31, 32, 33, 34, 63, 64, 65}[fr.Intn(16)]
-				if fi >= len(l.Ends) {
-					fi = p.Params.Limit
-				}
+				fi = c14AheadOfLimit(fr, p.Params.Limit, len(l.Ends))
 				p.Tags["fault_at_limit_plus_one"] = "1"
 			}
 			class := []string{"boundary", "header", "hdr_body", "body", "body", "last"}[fr.Intn(6)]
@@ -381,10 +407,7 @@ func (propC14) Gen(r *Rng, run uint64, tier string) *Plan {
 		case FaultFrame:
 			f.Frame = []int{0, 0, len(l.Ends) / 2, len(l.Ends) - 1, fr.Intn(len(l.Ends))}[fr.Intn(5)]
 			if p.Params.Limit > 0 && fr.Bool(0.4) && p.Params.Limit < len(l.Ends) {
-				f.Frame = p.Params.Limit + []int{0, 0, 0, 1, 7, 8, 15, 16, 17, 31, 32, 33, 34, 63, 64, 65}[fr.Intn(16)]
-				if f.Frame >= len(l.Ends) {
-					f.Frame = p.Params.Limit
-				}
+				f.Frame = c14AheadOfLimit(fr, p.Params.Limit, len(l.Ends))
 				p.Tags["fault_at_limit_plus_one"] = "1"
 			}
 			f.FrameKind = frameKindsAll[fr.Intn(len(frameKindsAll))]
